@@ -4,6 +4,7 @@ package main
 
 import (
 	"crypto/sha1"
+	"crypto/sha256"
 	"encoding/base64"
 	"fmt"
 )
@@ -36,4 +37,9 @@ func init() {
 		}
 		c.close(nil)
 	})
+}
+
+func sha256sum(b []byte) []byte {
+	h := sha256.Sum256(b)
+	return h[:]
 }
